@@ -54,7 +54,7 @@ manifest = {
                  "kind_free_text": "runtime monitoring: Amaranth pysim executions of the real Elaboratables under seeded hostile workloads, per-cycle monitors, reference-model oracles, three-valued verdicts"}],
     "checks": checks,
     "not_applicable": not_applicable,
-    "notes": "All checks: exit 0 held / exit 1 + VIOLATION line / exit 2 + INCONCLUSIVE line (monitor blind or mandatory bin empty). Known findings in known_findings.json.",
+    "notes": "All checks: exit 0 held / exit 1 + VIOLATION line / exit 2 + INCONCLUSIVE line (monitor blind or mandatory bin empty). Known findings (open and fixed, keyed by mechanism) in known_findings.json and known_findings.d/Cxx.json; witnesses, root causes and diffs in findings/Cxx.md.",
 }
 with open(os.path.join(VERIF, "MANIFEST.json"), "w") as f:
     json.dump(manifest, f, indent=1)
